@@ -51,7 +51,7 @@ struct Interp {
   std::vector<Finding> findings;
   std::vector<int> died;       // nodes that died in the current step
   // statistics
-  size_t steps = 0, effective = 0, max_owners = 0, boundary_hits = 0, reallocs_seen = 0;
+  size_t steps = 0, effective = 0, failed_loads = 0, max_owners = 0, boundary_hits = 0, reallocs_seen = 0;
   bool shared_seen = false, container_died_child_survived = false, child_died_container_survived = false, multi_block_release = false;
   std::string trace;           // "op(args)->result;" for the failure message
   std::string stop_prop;       // stop interpreting at the first finding for this property
@@ -291,6 +291,17 @@ struct Interp {
           if (!buf) { if (!refused_now()) flag("C04", "serialize_alloc failed"); break; }
           struct cbor_load_result res;
           root = LC(cbor_load(buf, w, &res));
+          if ((c & 7) == 5 && w >= 1) {
+            // failed decodes belong to the history too: whatever they allocated must be gone when they return (the
+            // final balance of the history shows it).  A proper prefix, and an input one level deeper than the limit.
+            cbor_item_t* junk = LC(cbor_load(buf, w - 1, &res));
+            if (junk) LCV(cbor_decref(&junk));
+            std::vector<unsigned char> deep((size_t)CBOR_MAX_STACK_SIZE + 1 + (size_t)(c >> 6), (unsigned char)((c & 8) ? 0x81 : (c & 16) ? 0xc1 : 0x9f));
+            deep.push_back(0x00);
+            junk = LC(cbor_load(deep.data(), deep.size(), &res));
+            if (junk) LCV(cbor_decref(&junk));
+            failed_loads += 2;
+          }
           LCV(_cbor_free(buf));
           if (!root) { if (!refused_now()) flag("C03", "load of serialized tree failed"); break; }
         }
